@@ -208,10 +208,10 @@ def judge(v, r, base, base_diags, mode):
         got = parse_out(r['stdout'], mode, r['cwd'])
         exp = expected_of(v, base, base_diags)
         if got != exp:
-            opx = op_of(v, base, base_diags)
             tags = sorted({t for f in v['files'] for t in f['tags']})
-            explained = bool(tags) and got == opx
-            pre = got == op_of(v, base, base_diags, 'oppre')
+            # naming only: does the output equal what one of the disabled deviations of Filter.tla would print?
+            explained = bool(tags) and got == op_of(v, base, base_diags, 'devcwd')
+            pre = got == op_of(v, base, base_diags, 'devpre')
             cwdl = v['cwdk'] if v['cwdk'] not in ('root', 'rootb') else 'root-of-other-repository'
             globs = [e['glob'] for e in v['cfg']['entries']]
             if explained and tags == ['paths-cwd']:
@@ -233,6 +233,7 @@ def judge(v, r, base, base_diags, mode):
                                                   render_cfg(v['cfg']) if v['cfg']['k'] != 'none' else None,
                                                   short(got), short(exp)))
             return ('output', site, text, {'tags': tags, 'globs': globs, 'explained_by_operational_model': explained,
+                                           'matches_deviation': 'DevCwd' if explained else ('DevPre' if pre else None),
                                            'observed_ids': ids_of(got, v, base, base_diags),
                                            'expected_ids': [f['exp'] for f in v['files']]})
     if r['rc'] not in v['exits']:
@@ -284,12 +285,15 @@ def run(ck, tier):
         if len(vs) != r.distinct:
             raise Inconclusive('dump/states mismatch for ' + cfg)
         vecs += [v for v in vs if v['final']]
-    rd = vplib.run_tlc('Filter', 'Filter_dev.cfg', timeout=600, workers=1)
-    ck.add_tlc('Filter_dev: "operational = declarative everywhere" (violation expected: model-level view of the cwd defect)', rd)
-    ck.cov['model_level_cwd_deviation'] = ('TLC finds a run where the code-like layer differs from the property'
-                                           if rd.violated == 'OpEqualsDecl' else 'not found')
-    if rd.violated != 'OpEqualsDecl':
-        ck.note('Filter_dev.cfg: the operational layer no longer deviates from the declarative one (%r)' % rd.violated)
+    # vacuity guards: the two disabled deviations of the spec must be real deviations (TLC counterexample)
+    for cfg, inv, what in (('Filter_dev.cfg', 'DevCwdEqualsDecl', 'glob matched against the displayed (cwd-relative) path'),
+                           ('Filter_dev2.cfg', 'DevPreEqualsDecl', 'string-prefix project lookup')):
+        rd = vplib.run_tlc('Filter', cfg, timeout=600, workers=1)
+        ck.add_tlc('%s: disabled deviation "%s" equals the property (violation expected: vacuity guard)' % (cfg, what), rd)
+        if rd.violated != inv:
+            raise Inconclusive('vacuity guard: %s is not violated under %s (%r): the universe no longer separates the '
+                               'deviation "%s" from the property' % (inv, cfg, rd.violated, what))
+    ck.cov['deviation_guards'] = 'DevCwdEqualsDecl and DevPreEqualsDecl violated in TLC, as required'
     seen = set()
     uniq = []
     for v in vecs:
@@ -367,7 +371,7 @@ def run(ck, tier):
         ck.cov['runs_by_cwd'][v['cwdk']] = ck.cov['runs_by_cwd'].get(v['cwdk'], 0) + 1
     if drift:
         ck.note('model drift: %d runs satisfy the property although the operational layer of Filter.tla predicts a '
-                'deviation (the code no longer matches cwd-relative paths / prefix attribution)' % drift)
+                'different output' % drift)
         ck.cov['model_drift_runs'] = drift
     for i, mode, r, verdict, err in results[:2000:700]:
         ck.sample({'cwd': vecs[i]['cwd'], 'argv': r['argv'][3:], 'config': vecs[i]['cfg'], 'exit': r['rc'],
